@@ -132,6 +132,11 @@ def check(case) -> list[Fail]:
         got_n = f"raises {type(e).__name__}"
     if got_n != want_n:
         fails.append(Fail("num_out", k, f"got={got_n} want={want_n}"))
+    if k == "DFG":
+        # "a DFG's outer signature equals its body's": the whole function type, extension delta included
+        eo, ei = json.loads(x.outer_signature()._to_serial_root().model_dump_json()), json.loads(x.inner_signature()._to_serial_root().model_dump_json())
+        if eo != ei:
+            fails.append(Fail("inner_signature", "DFG:differs-from-outer", f"outer={eo} inner={ei}"[:300]))
     if s["inner"] is not None:
         gi, go = sig_io(x.inner_signature())
         wi, wo = ref.enc_row(s["inner"][0]), ref.enc_row(s["inner"][1])
